@@ -357,6 +357,9 @@ fn main() {
                 continue;
             }
         }
+        if !args.mine(case) {
+            continue;
+        }
         let mut rng = Rng::derive(args.seed, "C17", &[case]);
         match case % 4 {
             // Linear over owned storage, Ix2
